@@ -229,13 +229,19 @@ def isUnreserved (c : Char) : Bool := c.isAlphanum || c == '_' || c == '.' || c 
 
 def hexDigitUpper (n : Nat) : Char := if n < 10 then Char.ofNat (48 + n) else Char.ofNat (55 + n)
 
+/-- UTF-8 encoding of a code point -/
+def utf8Bytes (n : Nat) : List Nat :=
+  if n < 0x80 then [n]
+  else if n < 0x800 then [0xC0 + n / 64, 0x80 + n % 64]
+  else if n < 0x10000 then [0xE0 + n / 4096, 0x80 + n / 64 % 64, 0x80 + n % 64]
+  else [0xF0 + n / 262144, 0x80 + n / 4096 % 64, 0x80 + n / 64 % 64, 0x80 + n % 64]
+
 /-- `urllib.parse.quote_plus` on the UTF-8 encoding. -/
 def quotePlus (s : Str) : Str :=
   s.flatMap fun c =>
     if isUnreserved c then [c]
     else if c == ' ' then ['+']
-    else (String.singleton c).toUTF8.toList.flatMap fun b =>
-      ['%', hexDigitUpper (b.toNat / 16), hexDigitUpper (b.toNat % 16)]
+    else (utf8Bytes c.toNat).flatMap fun b => ['%', hexDigitUpper (b / 16), hexDigitUpper (b % 16)]
 
 def joinWith (sep : Str) : List Str → Str
   | [] => []
